@@ -283,6 +283,8 @@ func run(c *rig.Ctx) {
 		c.DistinctOnly(p.Hash)
 	})
 
+	oddStackDispatch(c)
+
 	roms := romrun.Select("02-interrupts", "intr_timing", "ei_sequence", "ei_timing", "rapid_di_ei", "reti_intr_timing", "if_ie_registers", "di_timing", "halt_ime", "cpu_instrs/cpu_instrs.gb", "timer/tim", "acceptance/ppu/")
 	romrun.FollowROMs(c, "roms", roms, romrun.FollowOpts{Props: []string{"C04"}, Verdict: true})
 }
